@@ -50,6 +50,10 @@ def int_for(rng, fname, kw):
     small = [0, 1, 2, 3, 5, 10, 16, 36, 37, -1, -2, 64, 100, 255, 1000]
     if kw in ("base",):
         return rng.choice([2, 8, 10, 16, 36, 0, 1, 37, -1, 62, gv.I64_MAX, gv.I64_MIN])
+    if kw == "compression_level" and "zstd" in fname:
+        # zstd's "ultra" levels (20+) allocate gigabyte-sized contexts (about 1.5 s for 5 bytes on an
+        # idle machine, much more under memory pressure): not a termination question
+        return rng.choice([-7, -1, 0, 1, 3, 9, 15, 19, rng.randint(-5, 19)])
     if kw == "buf_size":
         # the decode buffer is allocated up front: keep it below the worker's memory limit
         return rng.choice([0, 1, 16, 1000, 65536, 1 << 20, 1 << 24, -1, -5, gv.I64_MIN])
